@@ -575,9 +575,13 @@ func (l *loopState) notifySteps() { //nolint:gocognit
 		// untypedInputData stores the resolved data
 		untypedInputData, err := l.resolveExpressions(inputData, l.data)
 		if err != nil {
-			// An error here often indicates a locking issue in a step provider. This could be caused
-			// by the lock not being held when the output was marked resolved.
-			panic(fmt.Errorf("cannot resolve expressions for %s (%w)", nodeID, err))
+			// The expressions could not be evaluated with the data that is available now, for example because
+			// an optional value is absent, an index is out of range or a function failed. The workflow cannot
+			// continue, but that is a failure of this run, not a reason to crash the process.
+			l.logger.Errorf("Cannot resolve expressions for %s (%v)", nodeID, err)
+			l.recentErrors <- fmt.Errorf("cannot resolve expressions for %s (%w)", nodeID, err)
+			l.cancel()
+			return
 		}
 
 		// This switch checks to see if it's a node that needs to be run.
@@ -723,7 +727,7 @@ func (l *loopState) resolveExpressions(inputData any, dataModel any) (any, error
 	switch expr := inputData.(type) {
 	case expressions.Expression:
 		l.logger.Debugf("Evaluating expression %s...", expr.String())
-		return expr.Evaluate(dataModel, l.callableFunctions, l.workflowContext)
+		return l.evaluateExpression(expr, dataModel)
 	case *infer.OneOfExpression:
 		return l.resolveOneOfExpression(expr, dataModel)
 	case *infer.OptionalExpression:
@@ -840,7 +844,20 @@ func (l *loopState) resolveOptionalExpression(expr *infer.OptionalExpression, da
 	if !dependencyGroupResolved {
 		return nil, nil // It's nil to indicate that the optional field is not present.
 	}
-	return expr.Expr.Evaluate(dataModel, l.callableFunctions, l.workflowContext)
+	return l.evaluateExpression(expr.Expr, dataModel)
+}
+
+// evaluateExpression evaluates an expression on the data model. Faults during the evaluation that are
+// raised as panics, such as an integer division by zero or a function called with a value of an
+// unexpected type, are returned as errors.
+func (l *loopState) evaluateExpression(expr expressions.Expression, dataModel any) (result any, err error) {
+	defer func() {
+		if r := recover(); r != nil {
+			result = nil
+			err = fmt.Errorf("failed to evaluate expression %s (%v)", expr.String(), r)
+		}
+	}()
+	return expr.Evaluate(dataModel, l.callableFunctions, l.workflowContext)
 }
 
 // stageChangeHandler is implementing step.StageChangeHandler.
